@@ -11,6 +11,8 @@ import (
 	"path/filepath"
 	"sort"
 	"strings"
+
+	"github.com/istio-ecosystem/authservice/verifharness/gal"
 )
 
 type Summary struct {
@@ -72,7 +74,11 @@ func (c *Ctx) WriteShard(imports, caseType string, cases []string, descr []any) 
 	c.shardN++
 	var b strings.Builder
 	b.WriteString("From AS Require Import Base.Str Corr.Common " + imports + ".\n")
-	b.WriteString("Open Scope string_scope.\n")
+	b.WriteString("From Coq Require Import Uint63.\nOpen Scope string_scope.\n")
+	for _, d := range gal.InternDefs() {
+		b.WriteString(d + "\n")
+	}
+	gal.ResetIntern()
 	for i, cs := range cases {
 		fmt.Fprintf(&b, "Definition c%d : %s := %s.\n", i, caseType, cs)
 	}
